@@ -39,3 +39,32 @@ def run(ctx):
     return ctx.finish(rule="random hal programs over families " + ",".join(FAMILIES) + "; 4 back ends; n in {8,16,32,64}; sizes/rows/cols 1..6 incl. mismatched; "
                            "value classes random/max/min/alternating/sparse/zero at digit widths up to the FFT64 magnitude limit; distinct = (family, back end, n, class, op, limb_offset, cnv_offset, step); "
                            "non-trivial = implementation answer ok and contains a non-zero value")
+
+
+# ---------------------------------------------------------------------------------------------
+# NTT120 integer arithmetic (slice extension, appended): the same `run`, with the `ntt120`
+# correspondence gate (vlib/ntt120gen.py) executed before the evidence is written.
+_run_hal_programs = run
+
+
+def run(ctx):
+    from . import ntt120gen
+    finish = ctx.finish
+
+    def finish_with_ntt120(level="proof", rule="", extra=None):
+        binp = ctx.build_harness()
+        drv = ctx.driver()
+        if binp is not None and drv is not None:
+            broken = ntt120gen.gate(ctx, binp, drv)
+            if broken and not ctx.violations:
+                ctx.violation("C07 NTT120 correspondence no longer checks", {"broken": broken[:20]}, False)
+        ctx.assumptions[:] = [a for a in ctx.assumptions if not a.startswith("FFT64 rounding error")] + [
+            "FFT64: rounding error < 1/2 inside the documented magnitude domain is tied by correspondence only (IEEE-754 code, not proved)",
+            "NTT120: the butterfly network (ntt_ref / intt_ref) is a ring isomorphism Z_q[X]/(X^n+1) -> Z_q^n with inverse — hypothesis "
+            "`Ntt120.NttIsRingIso` of the pipeline theorems, tied by correspondence only; everything around it (residues, CRT, lazy "
+            "accumulation, reductions) is proved",
+        ]
+        return finish(level=level, rule=(rule + " || " + ntt120gen.RULE) if rule else ntt120gen.RULE, extra=extra)
+
+    ctx.finish = finish_with_ntt120
+    return _run_hal_programs(ctx)
